@@ -68,6 +68,20 @@ def check(toks, resp, mode, build):
             if len(f) == 9 and f[0] == "X" and f[1] == "V" and f[4] == "V" and f[7:] == ["0", "0"]:
                 ok = (int(f[2]), int(f[3])) in (x, y) and (int(f[5]), int(f[6])) in (x, y)
         return ("ok" if ok else "viol"), "minmax", x[1] != y[1], want
+    if op == "clamp":
+        x, lo, hi = E.pD(toks[1]), E.pD(toks[2]), E.pD(toks[3])
+        if cmpv(lo[0], lo[1], hi[0], hi[1]) > 0:
+            want = "P <panic: lo > hi>"
+            return ("ok" if resp.kind == "P" else "viol"), "clamp.inverted", True, want
+        if cmpv(x[0], x[1], lo[0], lo[1]) < 0:
+            e = lo
+        elif cmpv(x[0], x[1], hi[0], hi[1]) > 0:
+            e = hi
+        else:
+            e = x
+        want = "V %d %d (by value)" % e
+        ok = resp.kind == "V" and cmpv(int(resp.f[0]), int(resp.f[1]), e[0], e[1]) == 0 and 0 <= int(resp.f[1]) <= 18
+        return ("ok" if ok else "viol"), "clamp", True, want
     if op in ("sort", "btree"):
         items = plist(toks[1:])
         from fractions import Fraction
@@ -120,6 +134,11 @@ def constructed(rng):
         out.append("minmax %s %s" % (G.fD(*x), G.fD(*y)))
         if rng.random() < 0.3:
             out.append("rk_cmp %s %s" % (G.fD(*x), G.fD(*y)))
+        if rng.random() < 0.5:
+            z = rng.choice((x, y, G.dec(rng), (x[0] + 1 if x[0] < M else x[0], x[1])))
+            args = [x, y, z]
+            rng.shuffle(args)
+            out.append("clamp %s %s %s" % tuple(G.fD(*t) for t in args))
     # coefficients in the narrow band around the alignment-overflow threshold 2^127 / 10^k
     for p in range(0, 19):
         for q in range(0, 19):
@@ -271,6 +290,10 @@ def gen(rng, tier, shard, batch):
             else:
                 b, q = G.dec(rng)
             reqs.append("%s %s %s" % (rng.choice(("cmpall vv", "minmax", "rk_cmp")), G.fD(a, p), G.fD(b, q)))
+            if rng.random() < 0.1:
+                args = [(a, p), (b, q), rng.choice((G.dec(rng), rng.choice(G.representations(a, p)), (b, q)))]
+                rng.shuffle(args)
+                reqs.append("clamp %s %s %s" % tuple(G.fD(*t) for t in args))
         elif k < 0.9:
             ltok, rtok = C.shape_operands(rng, rng.choice(("Di", "iD")))
             if rng.random() < 0.5:
